@@ -216,16 +216,25 @@ class ClassList(Model):
     def m_iter(self, vm):
         S, c = self.S, self.c
         ctx = vm.ctx
+        cnt = S.cnt
+        world = getattr(self, "world", None)
+        if world is not None and cnt is world.pre.cnt:
+            # the lists of the (unmodified) pre-state: one family of position functions shared by all readers
+            at2, pos2, len2 = world.classlist_functions()
+            mk = self.mk
+            return SymStream(ctx._name("classlist"), lambda vm_, ix: mk(vm_, at2(c, ix)), length=len2(c),
+                             meta={"kind": "list", "at": lambda ix: at2(c, ix), "pos": lambda ww: pos2(c, ww), "cls": c})
         n = ctx.fresh_int("len_classlist")
         at = z3.Function(ctx._name("classlist_at"), I, Wr)
+        posw = z3.Function(ctx._name("classlist_pos"), Wr, I)
         i, j = z3.Ints("i j")
         (w,) = V("w", Wr)
-        # the list's elements: exactly the wrappers with cnt > 0, each cnt times (positions are a bijection for cnt == 1)
-        ctx.assume(z3.ForAll([i], z3.Implies(z3.And(0 <= i, i < n), S.cnt(c, at(i)) >= 1)))
-        ctx.assume(z3.ForAll([w], z3.Implies(S.cnt(c, w) >= 1, z3.Exists([i], z3.And(0 <= i, i < n, at(i) == w)))))
-        ctx.assume(z3.ForAll([i, j], z3.Implies(z3.And(0 <= i, i < n, 0 <= j, j < n, at(i) == at(j), S.cnt(c, at(i)) == 1), i == j)))
+        # the list's elements: exactly the wrappers with cnt > 0; a wrapper with cnt == 1 sits at exactly one position
+        ctx.assume(z3.ForAll([i], z3.Implies(z3.And(0 <= i, i < n), cnt(c, at(i)) >= 1)))
+        ctx.assume(z3.ForAll([w], z3.Implies(cnt(c, w) >= 1, z3.And(0 <= posw(w), posw(w) < n, at(posw(w)) == w))))
+        ctx.assume(z3.ForAll([i], z3.Implies(z3.And(0 <= i, i < n, cnt(c, at(i)) == 1), posw(at(i)) == i)))
         mk = self.mk
-        s = SymStream(ctx._name("classlist"), lambda vm_, ix: mk(vm_, at(ix)), length=n, meta={"kind": "list", "at": at, "cls": c})
+        s = SymStream(ctx._name("classlist"), lambda vm_, ix: mk(vm_, at(ix)), length=n, meta={"kind": "list", "at": at, "pos": posw, "cls": c})
         return s
 
 
@@ -238,7 +247,9 @@ class ClassMap(Model):
         self.cls_code = cls_code
 
     def m_getitem(self, vm, k):
-        return ClassList(self.S, self.cls_code(vm, k), self.mk)
+        cl = ClassList(self.S, self.cls_code(vm, k), self.mk)
+        cl.world = getattr(self, "world", None)
+        return cl
 
 
 class PairSet(Model):
@@ -345,12 +356,12 @@ class Graph(Model):
                 i, j = z3.Ints("i j")
                 (x,) = V("x", Nd)
                 pre = S.nodeAt          # snapshot: membership refers to the state at the call
-                ctx.assume(z3.ForAll([i], z3.Implies(z3.And(0 <= i, i < n), pre(at(i)) != NOW)))
-                ctx.assume(z3.ForAll([x], z3.Implies(pre(x) != NOW, z3.Exists([i], z3.And(0 <= i, i < n, at(i) == x)))))
-                ctx.assume(z3.ForAll([i, j], z3.Implies(z3.And(0 <= i, i < n, 0 <= j, j < n, at(i) == at(j)), i == j)))
+                posn = z3.Function(ctx._name("node_list_pos"), Nd, I)
+                ctx.assume(z3.ForAll([i], z3.Implies(z3.And(0 <= i, i < n), z3.And(pre(at(i)) != NOW, posn(at(i)) == i))))
+                ctx.assume(z3.ForAll([x], z3.Implies(pre(x) != NOW, z3.And(0 <= posn(x), posn(x) < n, at(posn(x)) == x))))
                 mk = self.mk
                 return SymStream(ctx._name("nodes"), lambda vm_, ix: mk(vm_, pre(at(ix))), length=n,
-                                 meta={"kind": "list", "at": at, "pre_nodeAt": pre})
+                                 meta={"kind": "list", "at": at, "pos": posn, "pre_nodeAt": pre})
             return Builtin("PyDiGraph.nodes", nodes)
         if name in ("in_edges", "out_edges"):
             def edges(it, fr, a, kw, _incoming=(name == "in_edges")):
@@ -407,12 +418,31 @@ class World:
         g.fields["_instance_graph"] = Graph(self.S, self.mk_wrapper, self.field_code)
         g.fields["_instance_index"] = InstanceIndex(self.S, self.mk_wrapper)
         g.fields["_class_to_wrapped_instances"] = ClassMap(self.S, self.mk_wrapper, self.cls_code)
+        g.fields["_class_to_wrapped_instances"].world = self
         g.fields["_relation_index"] = RelationIndex(self.S, self.field_code)
         g.fields["_class_diagram"] = Opaque("class-diagram")
         vm.spec.stubs["SymbolGraph.__call__"] = lambda it, a, k: g
         for f in env_axioms(self.pre):
             ctx.assume(f)
         self.class_codes = {}
+
+    def classlist_functions(self):
+        """Position functions of the class lists of the pre-state (contract of `list`: elements = wrappers with cnt >= 1)."""
+        if not hasattr(self, "_clf"):
+            ctx = self.vm.ctx
+            at2 = z3.Function("classlist_at", Cl, I, Wr)
+            pos2 = z3.Function("classlist_pos", Cl, Wr, I)
+            len2 = z3.Function("classlist_len", Cl, I)
+            i = z3.Int("i")
+            (w,) = V("w", Wr)
+            (c,) = V("c", Cl)
+            cnt = self.pre.cnt
+            ctx.assume(z3.ForAll([c, i], z3.Implies(z3.And(0 <= i, i < len2(c)), cnt(c, at2(c, i)) >= 1)))
+            ctx.assume(z3.ForAll([c, w], z3.Implies(cnt(c, w) >= 1, z3.And(0 <= pos2(c, w), pos2(c, w) < len2(c), at2(c, pos2(c, w)) == w))))
+            ctx.assume(z3.ForAll([c, i], z3.Implies(z3.And(0 <= i, i < len2(c), cnt(c, at2(c, i)) == 1), pos2(c, at2(c, i)) == i)))
+            ctx.assume(z3.ForAll([c], len2(c) >= 0))
+            self._clf = (at2, pos2, len2)
+        return self._clf
 
     # codes
     def cls_code(self, vm, c):
